@@ -1,0 +1,18 @@
+//go:build verif
+
+// Contracts for the deductive verifier in /verif (comment-only file; see /verif/DESIGN.md).
+
+package netio
+
+// A connection is an external resource: a read fills at most the buffer it is given, a write changes no
+// program state. What the peer sends is arbitrary.
+//@ func (Conn).Read
+//@   trusted
+//@   modifies b[0:len(b)]
+//@   ensures 0 <= result0 && result0 <= len(b)
+
+//@ func (Conn).Write
+//@   trusted
+//@   modifies nothing
+//@   ensures 0 <= result0 && result0 <= len(b)
+//@   ensures isnil(result1) ==> result0 == len(b)
